@@ -167,6 +167,11 @@ func reqSig(prop, conjunct string, e *ReqEdge, pkg *reg.Pkg, x *conc.Ctx, mode s
 	if pkg.Compressed {
 		sig["compressed"] = "true"
 	}
+	for _, o := range e.Req {
+		if o.T == "json" {
+			sig["has_json"] = "true"
+		}
+	}
 	if !pkg.SimpleUnion && touchesUnionKeyedList(e, x) {
 		sig["wrapper_union_key"] = "true"
 	}
@@ -347,6 +352,40 @@ func runReq(e *ReqEdge, pkg *reg.Pkg, x *conc.Ctx, mode string, res *rep.Result)
 	var pan string
 	desc := ""
 	switch {
+	case (mode == "setreq" || mode == "notif") && len(e.Req) > 0 && e.Req[0].K == "adel":
+		// an atomic Notification: everything at the prefix is replaced by the updates
+		pfx, err := x.GNMIPath(e.Req[0].P, pkg)
+		if err != nil {
+			skip(err)
+			return
+		}
+		n := &gpb.Notification{Timestamp: 42, Atomic: true, Prefix: pfx}
+		for i := 1; i < len(e.Req); i++ {
+			u, err := buildUpdate(&e.Req[i], x, pkg, (x.Seed+int64(i))%3 == 0)
+			if err != nil {
+				skip(err)
+				return
+			}
+			if len(u.Path.Elem) < len(pfx.Elem) {
+				res.InfraErr("atomic update above its prefix")
+				return
+			}
+			for j := range pfx.Elem {
+				if !proto.Equal(pfx.Elem[j], u.Path.Elem[j]) {
+					res.InfraErr("atomic update %v not below prefix %v", u.Path, pfx)
+					return
+				}
+			}
+			u.Path = &gpb.Path{Elem: u.Path.Elem[len(pfx.Elem):]}
+			n.Update = append(n.Update, u)
+		}
+		before := proto.Clone(n)
+		desc = "atomic " + compactProto(n)
+		sch := &ytypes.Schema{Root: root, SchemaTree: st}
+		callErr, pan = guard(func() error { return ytypes.UnmarshalNotifications(sch, []*gpb.Notification{n}) })
+		if !proto.Equal(before, n) {
+			res.Violate("C11", reqSig("C11", "notification-mutated", e, pkg, x, mode), "UnmarshalNotifications modified the notification: before "+compactProto(before)+" after "+compactProto(n), rc)
+		}
 	case mode == "setreq" || mode == "notif":
 		req := &gpb.SetRequest{}
 		for i := range e.Req {
